@@ -251,6 +251,7 @@ def gen_hist(rng, tier, flavour):
                 removed.append(op["ref"])
         else:
             op = {"k": k, "u": u}
+        op["obj"] = rng.choice(["same", "copy", "copy", "xml"])  # object identity of the string arguments
         if k in ISSUE or k in ("manage", "find_nameid"):
             issued.append(len(ops))  # steps whose answer can be presented again later
         ops.append(op)
@@ -386,6 +387,54 @@ def gen_cases(rng, tier):
 # ------------------------------------------------------------------ implementation side
 
 
+_INTERN = {}
+
+
+def _S(x, mode):
+    """Object identity of string arguments: "same" hands over the module constant object itself when the value
+    equals one (formats), anything else an equal-but-distinct str object -- what a value parsed from a request,
+    read from JSON or built at run time is.  The model is value-based; only the real code can tell the difference."""
+    if not isinstance(x, str):
+        return x
+    if mode == "same":
+        if not _INTERN:
+            from saml2 import saml
+
+            for name in dir(saml):
+                v = getattr(saml, name)
+                if name.startswith(("NAMEID_FORMAT", "NAME_FORMAT")) and isinstance(v, str):
+                    _INTERN[v] = v
+        return _INTERN.get(x, x)
+    return str(bytes(x, "utf-8"), "utf-8")
+
+
+def _objects(o, mode):
+    """the operation with every string argument replaced as `_S` says (nested: policy, filter, presented NameID)"""
+    if isinstance(o, dict):
+        return {k: (v if k in ("k", "m", "obj") else _objects(v, mode)) for k, v in o.items()}
+    if isinstance(o, list):
+        return [_objects(v, mode) for v in o]
+    return _S(o, mode)
+
+
+def _policy(p, mode):
+    """a NameIDPolicy as the application would have it: built in code, or ("xml") parsed from request XML"""
+    from xml.sax.saxutils import quoteattr
+
+    from saml2 import samlp
+
+    if mode == "xml":
+        attrs = "".join(" %s=%s" % (a, quoteattr(v)) for a, v in
+                        (("Format", p["fmt"]), ("SPNameQualifier", p["spq"]), ("AllowCreate", p["allow_create"])) if v is not None)
+        try:
+            nip = samlp.name_id_policy_from_string('<NameIDPolicy xmlns="urn:oasis:names:tc:SAML:2.0:protocol"%s/>' % attrs)
+        except Exception:  # characters XML cannot carry: fall back to the constructor below
+            nip = None
+        if nip is not None and (nip.format, nip.sp_name_qualifier, nip.allow_create) == (p["fmt"], p["spq"], p["allow_create"]):
+            return nip
+    return samlp.NameIDPolicy(format=p["fmt"], sp_name_qualifier=p["spq"], allow_create=p["allow_create"])
+
+
 def _mk_nid(d):
     from saml2.saml import NameID
 
@@ -419,7 +468,8 @@ def run_impl(case):
         from saml2.eptid import Eptid
 
         e = Eptid(case["secret"])
-        return {"vals": [e.get(case["idp"], sp, us) for sp, us in case["calls"]]}
+        return {"vals": [e.get(_S(case["idp"], "copy"), _S(sp, "copy" if i % 2 else "same"), _S(us, "copy" if i % 2 else "same"))
+                         for i, (sp, us) in enumerate(case["calls"])]}
     if op == "hist":
         return _run_hist(case)
     raise ValueError(op)
@@ -430,7 +480,7 @@ def _run_codec(case):
 
     out = {}
     for x in ("a", "b"):
-        c = code(_mk_nid(case[x]))
+        c = code(_mk_nid(_objects(case[x], "copy")))
         out["code_" + x] = c
         try:
             out["dec_" + x] = _obs_nid(decode(c))
@@ -449,7 +499,7 @@ def _run_hist(case):
 
     legit = _legit()
     db = {}
-    idb = IdentDB(db, case["cfg"]["domain"], case["cfg"]["name_qualifier"])
+    idb = IdentDB(db, _S(case["cfg"]["domain"], "copy"), _S(case["cfg"]["name_qualifier"], "copy"))
     sdb = SessionStorage()
     stub = types.SimpleNamespace(ident=idb, session_db=sdb)
     cands = []
@@ -491,6 +541,8 @@ def _run_hist(case):
 
     try:
         for i, o in enumerate(case["ops"]):
+            mode = o.get("obj", "copy")
+            o = _objects(o, mode)
             k = o["k"]
             del cands[:]
             stream[:] = list(o.get("rnd", []))
@@ -510,7 +562,7 @@ def _run_hist(case):
                                                        "text": "unresolved-%d" % j}
                         arg.update(o.get("set", {}))
                 if argobj is None:
-                    argobj = _mk_nid(arg)
+                    argobj = _mk_nid(_objects(arg, mode))
             handle = None
             res_nid = None
             try:
@@ -532,7 +584,7 @@ def _run_hist(case):
                 elif k == "construct":
                     lp = Policy({"default": {"nameid_format": o["local_fmt"]}}) if o["local_fmt"] is not None else None
                     p = o["pol"]
-                    nip = samlp.NameIDPolicy(format=p["fmt"], sp_name_qualifier=p["spq"], allow_create=p["allow_create"]) if p else None
+                    nip = _policy(p, mode) if p else None
                     r = idb.construct_nameid(o["u"], lp, o["spq"], nip, o["nq"])
                     res_nid = _obs_nid(r)
                     handle = r
@@ -549,7 +601,7 @@ def _run_hist(case):
                     res = {"r": "user", "u": idb.find_local_id(argobj)}
                 elif k == "mapping":
                     p = o["pol"]
-                    nip = samlp.NameIDPolicy(format=p["fmt"], sp_name_qualifier=p["spq"], allow_create=p["allow_create"])
+                    nip = _policy(p, mode)
                     r = idb.handle_name_id_mapping_request(argobj, nip)
                     res_nid = _obs_nid(r)
                     handle = r
